@@ -177,7 +177,8 @@ class FunctionSpace(BaseFunctionSpace, UFLObject):
 
     def __repr__(self):
         """Representation."""
-        return f"FunctionSpace({self._ufl_domain!r}, {self._ufl_element!r})"
+        label = f", label={self._label!r}" if self._label else ""
+        return f"FunctionSpace({self._ufl_domain!r}, {self._ufl_element!r}{label})"
 
     def __str__(self):
         """String."""
@@ -208,7 +209,8 @@ class DualSpace(BaseFunctionSpace, UFLObject):
 
     def __repr__(self):
         """Representation."""
-        return f"DualSpace({self._ufl_domain!r}, {self._ufl_element!r})"
+        label = f", label={self._label!r}" if self._label else ""
+        return f"DualSpace({self._ufl_domain!r}, {self._ufl_element!r}{label})"
 
     def __str__(self):
         """String."""
